@@ -13,7 +13,7 @@ pub const PORT: u8 = 2;
 
 /// `out` is `b` with the authority `b[a0..a1]` replaced by
 /// `[ userinfo "@" ] host [ ":" port ]` where exactly one part is replaced.
-fn is_expected(out: &[u8], b: &[u8], a0: usize, a1: usize, op: u8, new: Option<&[u8]>, k: usize) -> bool {
+pub(crate) fn is_expected(out: &[u8], b: &[u8], a0: usize, a1: usize, op: u8, new: Option<&[u8]>, k: usize) -> bool {
     let a = &b[a0..a1];
     let s = split_auth(a);
     let mut ui = s.user_info.map(|(x, e)| &a[x..e]);
@@ -48,7 +48,19 @@ macro_rules! apply {
 }
 
 /// One edit through a fresh handle.
-fn one_op<const OP: u8, const SOME: bool, const N: usize, const M: usize>() {
+fn covers_all(some: bool, out_len: usize, in_len: usize, a1: usize) {
+    cover!(if some { out_len > in_len } else { out_len < in_len }, "the text grew (value set) / shrank (value removed)");
+    cover!(if some { out_len <= in_len } else { out_len == in_len }, "replacement of an existing value by one not longer / nothing to remove");
+    cover!(a1 < in_len, "text follows the authority (it has to be moved)");
+}
+
+/// Quick tier: one witness, because each `kani::cover!` is one more satisfiable
+/// SAT query on the full formula (20-160 s each here).
+fn covers_min(some: bool, out_len: usize, in_len: usize, a1: usize) {
+    cover!(if some { a1 < in_len && out_len != in_len } else { out_len < in_len }, "text that follows the authority was moved (value set) / the text shrank (value removed)");
+}
+
+fn one_op<const OP: u8, const SOME: bool, const FRESH: bool, const N: usize, const M: usize>(covers: fn(bool, usize, usize, usize)) {
     let t = Text::<N>::any();
     let b = t.bytes();
     assume(tables::t_uri_uriref_valid_k(b, N));
@@ -65,7 +77,6 @@ fn one_op<const OP: u8, const SOME: bool, const N: usize, const M: usize>() {
         assume(arg.is_empty());
     }
     let (a0, a1) = before.authority.unwrap();
-
     let mut x = unsafe { UriRefBuf::new_unchecked(vec_cap::<10>(b)) };
     let (hp, hl) = {
         let mut am = x.authority_mut().unwrap();
@@ -76,20 +87,26 @@ fn one_op<const OP: u8, const SOME: bool, const N: usize, const M: usize>() {
     let out = x.as_bytes();
     assert!(is_expected(out, b, a0, a1, OP, if some { Some(arg) } else { None }, N + M + 1), "C11: the edit did not change exactly that sub-component");
     assert!(tables::t_uri_uriref_valid_k(out, N + M + 1), "C04: the buffer is no longer a valid URI reference after the authority edit");
-    let fresh = x.authority().unwrap().as_bytes();
-    assert!(hp == fresh.as_ptr() && hl == fresh.len(), "C11: after the call the handle does not view exactly the new authority");
-    cover!(if SOME { out.len() > b.len() } else { out.len() < b.len() }, "the text grew (value set) / shrank (value removed)");
-    cover!(if SOME { out.len() <= b.len() } else { out.len() == b.len() }, "replacement of an existing value by one not longer / nothing to remove");
-    cover!(a1 < b.len(), "text follows the authority (it has to be moved)");
+    if FRESH {
+        let fresh = x.authority().unwrap().as_bytes();
+        assert!(hp == fresh.as_ptr() && hl == fresh.len(), "C11: after the call the handle does not view exactly the new authority");
+    } else {
+        // the same statement without a second parse of the buffer (which costs as
+        // much as the edit): by the assertion above the new authority is the piece
+        // that starts where the old one did and whose length moved by exactly the
+        // length change of the text; authority() of a valid text is that piece (C02)
+        assert!(hp == out[a0..].as_ptr() && hl + b.len() == (a1 - a0) + out.len(), "C11: after the call the handle does not view exactly the new authority");
+    }
+    covers(SOME, out.len(), b.len(), a1);
     forget(x);
 }
 
-// @h prop=C11,C04 tier=quick kind=check timeout=2400 mem=22 bound="UriRefBuf with authority, text <= 3 bytes, user info <= 1 byte" encodes="RiRefBufImpl::authority_mut;AuthorityMutImpl::{set_userinfo,as_authority};parse::find_user_info;utils::{replace,allocate_range}"
+// @h prop=C11,C04 tier=quick kind=check timeout=2400 mem=14 bound="UriRefBuf with authority, text <= 3 bytes, user info <= 1 byte" encodes="RiRefBufImpl::authority_mut;AuthorityMutImpl::{set_userinfo,as_authority};parse::find_user_info;utils::{replace,allocate_range}"
 #[cfg_attr(kani, kani::proof)]
 #[cfg_attr(kani, kani::unwind(8))]
 #[cfg_attr(kani, kani::stub(std::vec::Vec::resize, crate::stubs::vec_resize))]
 pub fn c11_set_userinfo_some_n3() {
-    one_op::<USERINFO, true, 3, 1>()
+    one_op::<USERINFO, true, false, 3, 1>(covers_min)
 }
 
 // @h prop=C11,C04 tier=thorough kind=check timeout=2400 mem=17 bound="UriRefBuf with authority, text <= 4 bytes, user info <= 2 bytes" encodes="RiRefBufImpl::authority_mut;AuthorityMutImpl::{set_userinfo,as_authority};parse::find_user_info;utils::{replace,allocate_range}"
@@ -97,23 +114,31 @@ pub fn c11_set_userinfo_some_n3() {
 #[cfg_attr(kani, kani::unwind(8))]
 #[cfg_attr(kani, kani::stub(std::vec::Vec::resize, crate::stubs::vec_resize))]
 pub fn c11_set_userinfo_some_n4() {
-    one_op::<USERINFO, true, 4, 2>()
+    one_op::<USERINFO, true, true, 4, 2>(covers_all)
 }
 
-// @h prop=C11,C04:thorough tier=quick kind=check timeout=2400 mem=14 bound="UriRefBuf with authority, text <= 3 bytes, user info removed" encodes="RiRefBufImpl::authority_mut;AuthorityMutImpl::{set_userinfo,as_authority};parse::find_user_info;utils::{replace,allocate_range}"
+// @h prop=C11,C04:thorough tier=quick kind=check timeout=2400 mem=10 bound="UriRefBuf with authority, text <= 3 bytes, user info removed" encodes="RiRefBufImpl::authority_mut;AuthorityMutImpl::{set_userinfo,as_authority};parse::find_user_info;utils::{replace,allocate_range}"
 #[cfg_attr(kani, kani::proof)]
 #[cfg_attr(kani, kani::unwind(8))]
 #[cfg_attr(kani, kani::stub(std::vec::Vec::resize, crate::stubs::vec_resize))]
 pub fn c11_set_userinfo_none_n3() {
-    one_op::<USERINFO, false, 3, 0>()
+    one_op::<USERINFO, false, false, 3, 0>(covers_min)
 }
 
-// @h prop=C11,C04 tier=quick kind=check timeout=2400 mem=13 bound="UriRefBuf with authority, text <= 4 bytes, host <= 2 bytes" encodes="AuthorityMutImpl::{set_host,as_authority};parse::find_host;utils::replace"
+// @h prop=C11,C04 tier=quick kind=check timeout=2400 mem=10 bound="UriRefBuf with authority, text <= 3 bytes, host <= 2 bytes" encodes="AuthorityMutImpl::{set_host,as_authority};parse::find_host;utils::replace"
+#[cfg_attr(kani, kani::proof)]
+#[cfg_attr(kani, kani::unwind(8))]
+#[cfg_attr(kani, kani::stub(std::vec::Vec::resize, crate::stubs::vec_resize))]
+pub fn c11_set_host_n3() {
+    one_op::<HOST, true, false, 3, 2>(covers_min)
+}
+
+// @h prop=C11,C04 tier=thorough kind=check timeout=2400 mem=13 bound="UriRefBuf with authority, text <= 4 bytes, host <= 2 bytes" encodes="AuthorityMutImpl::{set_host,as_authority};parse::find_host;utils::replace"
 #[cfg_attr(kani, kani::proof)]
 #[cfg_attr(kani, kani::unwind(8))]
 #[cfg_attr(kani, kani::stub(std::vec::Vec::resize, crate::stubs::vec_resize))]
 pub fn c11_set_host_n4() {
-    one_op::<HOST, true, 4, 2>()
+    one_op::<HOST, true, true, 4, 2>(covers_all)
 }
 
 // @h prop=C11,C04:thorough tier=thorough kind=check timeout=2400 mem=24 bound="UriRefBuf with authority, text <= 3 bytes, port <= 1 byte" encodes="AuthorityMutImpl::{set_port,as_authority};parse::find_port;utils::{replace,allocate_range}"
@@ -121,7 +146,7 @@ pub fn c11_set_host_n4() {
 #[cfg_attr(kani, kani::unwind(8))]
 #[cfg_attr(kani, kani::stub(std::vec::Vec::resize, crate::stubs::vec_resize))]
 pub fn c11_set_port_some_n3() {
-    one_op::<PORT, true, 3, 1>()
+    one_op::<PORT, true, true, 3, 1>(covers_all)
 }
 
 // @h prop=C11,C04 tier=thorough kind=check timeout=2400 mem=17 bound="UriRefBuf with authority, text <= 4 bytes, port <= 2 bytes" encodes="AuthorityMutImpl::{set_port,as_authority};parse::find_port;utils::{replace,allocate_range}"
@@ -129,15 +154,15 @@ pub fn c11_set_port_some_n3() {
 #[cfg_attr(kani, kani::unwind(8))]
 #[cfg_attr(kani, kani::stub(std::vec::Vec::resize, crate::stubs::vec_resize))]
 pub fn c11_set_port_some_n4() {
-    one_op::<PORT, true, 4, 2>()
+    one_op::<PORT, true, true, 4, 2>(covers_all)
 }
 
-// @h prop=C11,C04:thorough tier=quick kind=check timeout=2400 mem=14 bound="UriRefBuf with authority, text <= 3 bytes, port removed" encodes="AuthorityMutImpl::{set_port,as_authority};parse::find_port;utils::{replace,allocate_range}"
+// @h prop=C11,C04:thorough tier=quick kind=check timeout=2400 mem=10 bound="UriRefBuf with authority, text <= 3 bytes, port removed" encodes="AuthorityMutImpl::{set_port,as_authority};parse::find_port;utils::{replace,allocate_range}"
 #[cfg_attr(kani, kani::proof)]
 #[cfg_attr(kani, kani::unwind(8))]
 #[cfg_attr(kani, kani::stub(std::vec::Vec::resize, crate::stubs::vec_resize))]
 pub fn c11_set_port_none_n3() {
-    one_op::<PORT, false, 3, 0>()
+    one_op::<PORT, false, false, 3, 0>(covers_min)
 }
 
 /// Two edits through ONE handle, ops chosen symbolically, give exactly what the
